@@ -93,6 +93,15 @@ CHECKS['C20'] = dict(
          'its first yield and on resumption: the exception must reach the consumer as the same object, after a prefix of the compiled answers, '
          'leaving no binding. Native arguments must be engine terms or Python constants.',
     note='Differential oracle (engine A is the model for B); the simulator contributes the lifecycle schedule and the faults. Worlds that hit a RecursionError on either side (cyclic terms) are discarded.')
+CHECKS['C04'] = dict(
+    category='exploration', design_ref='DESIGN.md section 4, C04',
+    technique='deterministic simulation: seeded scheduler interleaving several engines\' histories at op, generator-step and thread (baton-passed real threads, line-level pre-emption via sys.settrace, recorded/replayed switch list) granularity; oracle = same history solo in a pristine forked process',
+    text='2-3 engines with deliberately colliding vocabularies run seeded histories (compile+load, assert, retract, retractall, register, clear, atom '
+         'identity, suspended query generators) under back-to-back, op-level and thread schedules; in thread mode each engine runs on a real thread '
+         'and every executed line of engine, compiler pipeline and generated code is a pre-emption point at which a seeded scheduler may move the '
+         'baton (decisions recorded, replayable, shrinkable). Each engine\'s observation log must equal the log of its history run alone in a pristine '
+         'forked process. Same-engine mode interleaves next/close/drop of 2-4 queries over disjoint variables on one engine against their solo answers.',
+    note='Line-granular, not bytecode-granular pre-emption; never pre-empts inside the ANTLR runtime. Self-referential oracle: exceptions are outcomes. evaluate_bounded excluded as the statement says.')
 
 NOT_APPLICABLE = [
     ('C01', 'answer sequence is a pure function of (program text, query): no schedule, fault, clock or history in the statement; needs differential testing against a reference Prolog, not a simulator (DESIGN.md section 5)'),
@@ -107,7 +116,7 @@ NOT_APPLICABLE = [
 ]
 
 PENDING = {p: 'claimed in DESIGN.md; its check is not built yet at this commit (work in progress), so nothing is claimed for it here' for p in
-           ['C04']}   # property id -> reason, for claimed-in-design properties whose check is not built yet
+           []}   # property id -> reason, for claimed-in-design properties whose check is not built yet
 
 
 def main():
